@@ -81,6 +81,17 @@ class History(object):
         self.base = type("VBase%d" % self.uid, (SpecSet,), dict({self.name: RegistryPoint()}, **extra))
         self.point = getattr(self.base, self.name)
         self.created.append(self.point)
+        # levels: subclasses that RE-DECLARE the registry point (same name again); implementations of level l are
+        # defined in direct subclasses of the class of level l
+        self.levels = h.get("levels", 0)
+        self.lvl_cls = [self.base]
+        self.lvl_point = [self.point]
+        for l in range(1, self.levels + 1):
+            cls = type("VRefined%d_%d" % (self.uid, l), (self.lvl_cls[-1],), {self.name: RegistryPoint()})
+            self.lvl_cls.append(cls)
+            self.lvl_point.append(cls.registry[self.name])
+            self.created.append(cls.registry[self.name])
+        self.impl_cls = {}
         if "other_point" in extra:
             self.created.append(self.base.other_point)
         hist = self
@@ -158,8 +169,20 @@ class History(object):
             o = datasource(self.ctx[self.rng.randint(1, self.nctx)])(oimpl)
             dct["other_point"] = o
             self.created.append(o)
-        type("VImpl%d_%d" % (self.uid, i), (self.base,), dct)
+        self.impl_cls[i] = type("VImpl%d_%d" % (self.uid, i), (self.lvl_cls[d.get("lvl", 0)],), dct)
         self.impl[i] = ds
+        self.created.append(ds)
+
+    def deep_noise(self, i):
+        """A sub-subclass of an implementation class defining the spec's name again: its base declares no
+        registry point, so the metaclass must not register anything."""
+        def deep(broker):
+            self.log.append(OTHER)
+            return Val(OTHER)
+        deep.__name__ = "deep%d_%d" % (self.uid, i)
+        deep.__module__ = "verif_generated"
+        ds = datasource(self.ctx[self.rng.randint(1, self.nctx)])(deep)
+        type("VDeep%d_%d" % (self.uid, i), (self.impl_cls[i],), {self.name: ds})
         self.created.append(ds)
 
     # -- projection of the real registries ---------------------------------
@@ -180,7 +203,10 @@ class History(object):
         foreign = [c for c in table if c not in self.ctx_id and table[c]]
         if foreign:
             handlers.append([OTHER])
-        deps = [self.idx_of(o) for o in dr.get_delegate(self.point).deps]
+        deps = []
+        for l, pt in enumerate(self.lvl_point):
+            nxt = self.lvl_point[l + 1] if l + 1 < len(self.lvl_point) else None
+            deps.append([0 if o is nxt else self.idx_of(o) for o in dr.get_delegate(pt).deps])
         return ignore, handlers, deps
 
     # -- evaluation --------------------------------------------------------
@@ -260,11 +286,15 @@ def run_history(h, rng):
         for i, d in enumerate(h["impls"]):
             hist.register(i + 1, d)
             ignore, handlers, deps = hist.project(i + 1)
-            events.append({"ev": "reg", "d": {"k": d["k"], "cs": list(d["cs"]), "j": d["j"]},
+            events.append({"ev": "reg", "d": {"k": d["k"], "cs": list(d["cs"]), "j": d["j"], "lvl": d.get("lvl", 0)},
                            "ignore": ignore, "handlers": handlers, "deps": deps})
+            if rng.random() < 0.15:
+                hist.deep_noise(i + 1)
+                ignore, handlers, deps = hist.project(i + 1)
+                events.append({"ev": "noop", "ignore": ignore, "handlers": handlers, "deps": deps})
         for e in h["evals"]:
             events.append(hist.evaluate(e))
-        return {"id": h["id"], "kind": "gen", "nctx": h["nctx"], "events": events,
+        return {"id": h["id"], "kind": "gen", "nctx": h["nctx"], "levels": h.get("levels", 0), "events": events,
                 "plain_ctx": hist.plain_ctx}
     finally:
         hist.cleanup()
